@@ -692,6 +692,8 @@ class Lowering:
             args = tuple(flat)
             t = ("call", func, args, kws)
         fname = func[1] if op(func) in ("ext", "builtin") else None
+        if op(func) == "builtin" and fname == "len" and len(args) == 1 and not kws and op(args[0]) in ("tuple", "list") and not any(op(x) == "star" for x in args[0][1]):
+            return ("const", len(args[0][1]))  # the length of a display is the number of its elements
         if fname == "itertools.chain" and not kws and not any(op(a) == "star" for a in args):
             elts = []
             for a in args:
@@ -822,6 +824,14 @@ class Lowering:
             k = lo[1]
             if len(elts) == k + 1 and op(elts[k]) == "star" and not any(op(x) == "star" for x in elts[:k]):
                 return ("call", ("builtin", "list"), (elts[k][1],), ())
+        # (a, b, c)[i:j] with literal bounds and no splat among the elements: the display of the elements kept
+        def _b(x):
+            return None if (x is None or is_const(x, None)) else x[1] if (is_const(x) and isinstance(x[1], int) and not isinstance(x[1], bool)) else "?"
+
+        if op(base) in ("list", "tuple") and not any(op(x) == "star" for x in base[1]) and (step is None or is_const(step, None)):
+            lo_, hi_ = _b(lo), _b(hi)
+            if lo_ != "?" and hi_ != "?":
+                return (op(base), tuple(base[1][lo_:hi_]))
         return ("slice", base, lo, hi, step)
 
     @staticmethod
